@@ -34,7 +34,7 @@ s7 = ["## 7. Validating the checker (both directions)\n",
  f"* **Self-test bank** (`mutants/bank.py`, {nbreak} break variants and {nben} benign variants, listed per property in §4): each entry is a literal rewrite applied to a scratch copy of the working tree under the temp directory (never to `/repo`), checked in a separate process and removed. Last full run: every break variant is reported by the expected rule, every benign variant is silent. The thorough tier of each check re-runs its own entries and records `fired k/n` in the evidence. A rewrite whose source text is no longer present is skipped, so the bank cannot raise an alarm about the tree under test.\n"
  f"* **Behaviour-preserving refactorings written by independent agents** (`benign/<set>/patch_NN.diff`, {len(refs)} patches in {len(sets)} sets: {', '.join(sets)}; each agent was asked for a different family of refactorings — helper extraction, inlining/renaming/moving of existing helpers, control-flow reshaping, performance-style edits, clarity/defensive edits, loop reshaping — had no access to `/verif`, and verified every patch against the unedited suite). The bank applies each patch to a scratch copy and requires *every* check to stay silent; the thorough tier of each property does the same for that property. This is the test of the 'never an alarm on code where the property holds' requirement; what it found and what was changed is listed in §5 (false alarms).\n"
  "* **Renaming robustness**: all unexported fields of the dense stores, both sketches and the paginated store (and its `sortBuffer`/`compact`) were renamed in a scratch copy: all checks silent.\n"
- "* **Independently seeded changes** (`/verif/seeded/<id>/`, eight rounds: A/B, C/D, E/F, G/H, I/J, K/L, M/N and O/P — from the second round on the agents were told which ideas had been used already for their property, so later rounds reach for less obvious places: sibling helpers, caches, fast paths, the generated protobuf builders, the statistics object): fresh sub-agents were given only the text of one property and a scratch worktree, and asked for a change that breaks the property, compiles, passes the unedited suite and needs something specific to manifest, with a demonstration test. Each kept change was confirmed here in a scratch worktree (demonstration passes on the clean tree, fails with the change, full suite passes with the change), then the checks were run against `/repo` with the change applied and reverted. The table is generated from the `meta.json` files; 'own check' says whether the check of the property the change was written against reports it (obligations shared between properties keep their home rule id).\n"]
+ "* **Independently seeded changes** (`/verif/seeded/<id>/`, nine rounds: A/B, C/D, E/F, G/H, I/J, K/L, M/N, O/P and Q/R — from the second round on the agents were told which ideas had been used already for their property, so later rounds reach for less obvious places: sibling helpers, caches, fast paths, the generated protobuf builders, the statistics object): fresh sub-agents were given only the text of one property and a scratch worktree, and asked for a change that breaks the property, compiles, passes the unedited suite and needs something specific to manifest, with a demonstration test. Each kept change was confirmed here in a scratch worktree (demonstration passes on the clean tree, fails with the change, full suite passes with the change), then the checks were run against `/repo` with the change applied and reverted. The table is generated from the `meta.json` files; 'own check' says whether the check of the property the change was written against reports it (obligations shared between properties keep their home rule id).\n"]
 mc = os.path.join(ROOT, "tools", "mutcov_summary.json")
 if os.path.exists(mc):
     m = json.load(open(mc))
@@ -58,7 +58,7 @@ if rows:
             notes.append(f"* **{m['seed_id']}** (missed): {m['comment']}")
     if notes:
         s7.append("\nThe misses, and why they stay misses:\n\n" + "\n".join(notes) + "\n")
-    s7.append(f"\n{len(rows)} seeded changes kept, {len(rows)-len(miss)} reported by at least one check, {nown} by the check of their own property, {len(miss)} missed. Where a change was first missed the rules were strengthened (the history is in §5 and in the commit log): C08-D4 after C08/A; C02-D2 captures after C02/A, C04/A and C14/C; C06-D3 after C06/A and C12/B; C04-D3 twin rule after C04/B; C09-D1 always-written and C09-D3 forms-not-exclusive after C09/A and C09/B; C18-D4 float64le chain after C18/B; C05-D5/D6/D7 after C05/B and F7; C02-D4 window-covers-argument after C02/C; C08-D4/C06-D2 batch-room after C06/C; C05-D2 bounded growth and limit-is-constant after C05/C and C05/D; C03-D3 margin-in-the-exponent after C03/D; C10-D1 zero-weight rule after C10/D; round 3: sorted-flag typestate, batch equivalence (C12-D4), C19-D1 every-path EncodeProto, C04-D8 full-scan emptiness, C05-D8/D9, C16-D2 representation-untouched, C17-D3 enumeration end; round 4: C09-D1 fresh-scratch tag and FromProto delegation, C10-D3 compensated-step shape, `copy()` element aliasing, clamp-loop full scan, the 32-bit varint token; round 5: C06-D6 decoding constructors, C08-D5 Count block first, C14-D5 no package-level state, C14-D6 detached snapshots, C03-D4 gamma call sites, C04-D9 page table ownership and page use, C09-D1 one sub-buffer per nested message, C18-D5 bit agreement; round 6: C08-D3 mapping arm decodes / current-mapping guard, C18-D3 literal size answers bounded, every sparse map update scales, plus shares (C02, C04, C05, C06, C07, C08, C11, C14, C17, C19); round 7: C04-D3 sparse entries enter guarded, C04-D9 page slots from the table's current base and page/line pairing, C13-D2 every element's error, C18-D1 composite decoders hand over their own cursor, C09-D2 same entries on both export paths, C05-D6 in-loop adds stay alive, C08-D4 batch steps, plus shares (C02, C04, C06, C07, C10, C12, C15, C16); before round 8 the add side of the stores was shared into every property that states what a sketch answers after additions (C01, C02, C06, C07, C09, C11, C17) and the read side into C05 and C12; round 8 itself needed only shares (C01, C07, C12, C17, C19); and obligations were shared between properties whose statements overlap (most of the twenty checks re-evaluate obligations of another property; §4 lists them under SHARED).\n")
+    s7.append(f"\n{len(rows)} seeded changes kept, {len(rows)-len(miss)} reported by at least one check, {nown} by the check of their own property, {len(miss)} missed. Where a change was first missed the rules were strengthened (the history is in §5 and in the commit log): C08-D4 after C08/A; C02-D2 captures after C02/A, C04/A and C14/C; C06-D3 after C06/A and C12/B; C04-D3 twin rule after C04/B; C09-D1 always-written and C09-D3 forms-not-exclusive after C09/A and C09/B; C18-D4 float64le chain after C18/B; C05-D5/D6/D7 after C05/B and F7; C02-D4 window-covers-argument after C02/C; C08-D4/C06-D2 batch-room after C06/C; C05-D2 bounded growth and limit-is-constant after C05/C and C05/D; C03-D3 margin-in-the-exponent after C03/D; C10-D1 zero-weight rule after C10/D; round 3: sorted-flag typestate, batch equivalence (C12-D4), C19-D1 every-path EncodeProto, C04-D8 full-scan emptiness, C05-D8/D9, C16-D2 representation-untouched, C17-D3 enumeration end; round 4: C09-D1 fresh-scratch tag and FromProto delegation, C10-D3 compensated-step shape, `copy()` element aliasing, clamp-loop full scan, the 32-bit varint token; round 5: C06-D6 decoding constructors, C08-D5 Count block first, C14-D5 no package-level state, C14-D6 detached snapshots, C03-D4 gamma call sites, C04-D9 page table ownership and page use, C09-D1 one sub-buffer per nested message, C18-D5 bit agreement; round 6: C08-D3 mapping arm decodes / current-mapping guard, C18-D3 literal size answers bounded, every sparse map update scales, plus shares (C02, C04, C05, C06, C07, C08, C11, C14, C17, C19); round 7: C04-D3 sparse entries enter guarded, C04-D9 page slots from the table's current base and page/line pairing, C13-D2 every element's error, C18-D1 composite decoders hand over their own cursor, C09-D2 same entries on both export paths, C05-D6 in-loop adds stay alive, C08-D4 batch steps, plus shares (C02, C04, C06, C07, C10, C12, C15, C16); before round 8 the add side of the stores was shared into every property that states what a sketch answers after additions (C01, C02, C06, C07, C09, C11, C17) and the read side into C05 and C12; round 8 needed shares (C01, C04, C07, C11, C12, C17, C19) and one rule (C10-D5 a statistics block is skipped only for the sentinel); round 9: C09-D3 messages are only read, C08-D4 a bin decoder reports success only after reading, C15-D1 every path through Clear clears, C19-D1 FromProto refuses nothing on its own, C16-D2 the dense scaling loop has no early exit, C04-D3 a shared walk still sorts first, plus shares (C01, C02, C07, C11, C12, C14); and obligations were shared between properties whose statements overlap (most of the twenty checks re-evaluate obligations of another property; §4 lists them under SHARED).\n")
 s7.append("\n---------------------------------------------------------------------------\n")
 open(os.path.join(ROOT, "DESIGN.md"), "w").write(rd("tools/design/head.md") + "\n" + "\n".join(sec) + "\n" + rd("tools/design/tail.md") + "\n" + "".join(s7) + "\n" + rd("tools/design/tail2.md"))
 print("DESIGN.md written:", len(open(os.path.join(ROOT, 'DESIGN.md')).read().splitlines()), "lines")
